@@ -240,3 +240,23 @@ Proof.
   intros man pid name. split; [exact (shipped_lookup_pid man pid)|exact (shipped_lookup_name man name)].
 Qed.
 Print Assumptions c14_store_lookup.
+
+(* Loading with a site overrides.proto: the definitions after loading are exactly the shipped ones
+   whose (manufacturer, PID value) is not overridden, plus the override entries -- nothing else
+   disappears (in particular not the other PIDs of a manufacturer that has one PID overridden), and
+   without overrides the table is the shipped table.  override_descs / override_pids are the
+   model of the loaded store that the harness compares every loader entry point with (validate on
+   and off, LoadFromDirectory / LoadFromFile / LoadFromStream; op ldo, ldf). *)
+Theorem c14_override_semantics : forall tbl ptbl os,
+  (forall key fs, In (key, fs) (override_descs tbl os) <->
+     (In (key, fs) tbl /\ overridden os (fst (fst key)) (snd (fst key)) = false) \/
+     In (key, fs) (ovr_descs os)) /\
+  (forall e : pid_entry, In e (override_pids ptbl os) <->
+     (In e ptbl /\ overridden os (fst (fst e)) (snd (fst e)) = false) \/
+     In e (map (fun o => (ovr_man o, ovr_pid o, snd (fst o))) os)) /\
+  override_descs tbl [] = tbl /\ override_pids ptbl [] = ptbl.
+Proof.
+  intros tbl ptbl os. repeat split; try (apply override_descs_spec); try (apply override_pids_spec);
+    apply (override_none tbl ptbl).
+Qed.
+Print Assumptions c14_override_semantics.
